@@ -46,7 +46,8 @@ def strategy(draw, tier="quick"):
             "op": draw(st.sampled_from(["whole", "whole", "image", "image", "image-nowhole"])),
             "inplace": draw(st.booleans()), "anchors": anchors,
             "bond_order": draw(st.sampled_from(["as-built", "shuffled"])), "seed": draw(st.integers(0, 2 ** 31)),
-            "layout": draw(st.sampled_from(["blocks", "blocks", "interleaved", "by-position"]))}
+            "layout": draw(st.sampled_from(["blocks", "blocks", "interleaved", "by-position"])),
+            "late_bond": draw(st.integers(0, 4)) == 0}
 
 
 def build(case):
@@ -126,8 +127,13 @@ def build(case):
         bonds = [bonds[k] if rng.random() < 0.5 else (bonds[k][1], bonds[k][0]) for k in order]
     atoms = [top.atom(i) for i in range(top.n_atoms)]
     assert [a.index for a in top.atoms] == list(range(top.n_atoms))
+    held = None
+    if case.get("late_bond") and bonds:
+        held = bonds[-1]          # this bond is added to the topology only after a first re-imaging call (see run_case)
     for a, b in bonds:
-        top.add_bond(atoms[a], atoms[b])
+        if (a, b) != held:
+            top.add_bond(atoms[a], atoms[b])
+    case["_held"] = held
     n_atoms = base
     whole = np.zeros((nf, n_atoms, 3))
     scat = np.zeros((nf, n_atoms, 3))
@@ -160,6 +166,17 @@ def run_case(case):
         Hs = [gen.box_vectors(traj.unitcell_lengths[f], traj.unitcell_angles[f]) for f in range(nf)]
         op, inplace = case["op"], case["inplace"]
         anchors = None
+        held = case.pop("_held", None)
+        if held is not None:
+            # the topology is edited between two calls: a first call on the topology without one bond (whatever it computes and
+            # caches), then the bond is added to the very same Topology object; the checked call must see the edited topology
+            try:
+                if any(True for _ in traj.topology.bonds):
+                    (traj.make_molecules_whole(inplace=False) if op == "whole" else traj.image_molecules(inplace=False, make_whole=(op == "image")))
+            except Exception:
+                labels.append("first-call-raised")
+            traj.topology.add_bond(traj.topology.atom(held[0]), traj.topology.atom(held[1]))
+            labels.append("bond-added-between-calls")
         mols_sets = traj.topology.find_molecules()
         if op.startswith("image"):
             if case["anchors"] == "explicit":
